@@ -3,9 +3,11 @@
    is an oracle `chk` (a Section variable wherever theorems are stated):
      ChkOk                 compiled, no warning recorded
      ChkSyntaxError        compile raised SyntaxError                        -> problem statement
+     ChkCaughtExn          compile raised ValueError / RecursionError / MemoryError / OverflowError (null bytes, source nested too
+                           deeply) -> problem statement (since fix 74fa5fb; these used to escape as foreign exceptions)
      ChkSyntaxWarning      exactly one warning, a SyntaxWarning              -> problem statement
      ChkOtherWarning n     one warning of another category (n = 1) or n >= 2 warnings -> ParserError
-     ChkOtherExn           compile raised anything else (it propagates)
+     ChkOtherExn           compile raised anything outside those five classes (it propagates)
    Splitting and parsing are interleaved as in the generator-based code: statement i is parsed (and
    checked) before statement i+1 is split, the generator's own closing error (unmatched brackets) comes
    after the last statement, the problem-statement report after that, the cross-equation merge last. *)
@@ -15,7 +17,8 @@ Require Import PyBase PyStr Symbols Split Merge ParseEq.
 Open Scope string_scope.
 
 Inductive chk_res : Type :=
-| ChkOk | ChkSyntaxError | ChkSyntaxWarning | ChkOtherWarning (n : nat) | ChkOtherExn.
+| ChkOk | ChkSyntaxError | ChkSyntaxWarning | ChkOtherWarning (n : nat) | ChkOtherExn
+| ChkCaughtExn.   (* 74fa5fb: compile raised ValueError, RecursionError, MemoryError or OverflowError — caught like SyntaxError *)
 
 Inductive verdict : Type := VFine | VProblem | VRaise (e : exn).
 
@@ -26,7 +29,7 @@ Fixpoint check_codes (chk : string -> chk_res) (codes : list string) : verdict :
   | e :: rest =>
     match chk e with
     | ChkOk => check_codes chk rest
-    | ChkSyntaxError | ChkSyntaxWarning => VProblem          (* problem_statements.append(…); break *)
+    | ChkSyntaxError | ChkCaughtExn | ChkSyntaxWarning => VProblem   (* problem_statements.append(…); break *)
     | ChkOtherWarning _ => VRaise ParserError
     | ChkOtherExn => VRaise OtherError
     end
